@@ -61,7 +61,7 @@ def _feed(case, obj, traces, data, cuts):
     cuts = [0] + [c for c in cuts if 0 < c < n] + [n]
     for a, b in zip(cuts, cuts[1:]):
         if b > a:
-            must(case, 'update (classes %s...)' % (list(getattr(obj, 'partitions', []) if getattr(obj, 'partitions', None) is not None else [])[:6],), obj.update, traces[a:b], data[a:b])
+            must(case, 'update (classes %s...)' % (list(getattr(obj, 'partitions', []) if getattr(obj, 'partitions', None) is not None else [])[:6],), obj.update, gen.L(case, traces[a:b]), gen.L(case, data[a:b], 2))
 
 
 def _run_mia(case, partitions, traces, data):
